@@ -108,7 +108,7 @@ def run_kani(ov, filters, jobs, harness_timeout, total_timeout, extra, json_out,
     return rc, time.time() - t0
 
 
-def classify(prop, results, known, expected_panics=()):
+def classify(prop, results, known, expected_panics=(), own_labels_only=False):
     """Returns (violations, findings, inconclusive, stats, per_harness)."""
     violations, findings, inconclusive = [], [], []
     per_harness = []
@@ -156,6 +156,9 @@ def classify(prop, results, known, expected_panics=()):
             if is_vp:
                 m = re.match(r"VP\[(C\d+)\]", desc)
                 pid = m.group(1) if m else prop
+                if own_labels_only and pid != prop:
+                    tot["other_property_failures"] = tot.get("other_property_failures", 0) + 1
+                    continue  # shared harness family: counted by that property's own check
                 item = dict(property=pid, harness=h, label=desc, function=func, where=f"{file}:{loc.get('line')}")
             else:
                 if mode in ("xpanic", "mpanic") and not in_harness and cat in PANIC_CATEGORIES:
@@ -240,10 +243,12 @@ def replay(ov, prop, item, extra, timeout=900, native=True):
         return True, path, "solver counterexample (no native replay: CBMC-only environment)"
     # locate the harness file in the overlay
     target = None
-    for d, _, fs in os.walk(os.path.join(ov, "src")):
+    for d, dirs, fs in os.walk(os.path.join(ov, "src")):
         for f in fs:
             if f == parts[vi] + ".rs":
                 target = os.path.join(d, f)
+        if parts[vi] in dirs and os.path.exists(os.path.join(d, parts[vi], "mod.rs")):
+            target = os.path.join(d, parts[vi], "mod.rs")
     if not target:
         return None, path, "harness file not found in overlay"
     orig = open(target).read()
@@ -323,7 +328,7 @@ def run_check(prop, tier, cfg):
         data = json.load(open(json_out))
         results = data.get("verification_results", {}).get("results", [])
         n_expected = len(data.get("harness_metadata", []))
-        violations, findings, inconcl, tot, per_h = classify(prop, results, known, cfg.get("expected_panics", ()))
+        violations, findings, inconcl, tot, per_h = classify(prop, results, known, cfg.get("expected_panics", ()), cfg.get("own_labels_only", False))
         if len(results) != n_expected:
             inconcl.append(f"{n_expected} harnesses selected but {len(results)} reported")
         if n_expected == 0:
